@@ -34,7 +34,8 @@ struct Proj {
 }
 
 // `.lib/e.rs` and `lib/e.rs` differ only by a leading dot: two files, two baseline keys
-const FILES: &[&str] = &["src/a.rs", "src/b.rs", "src/c.rs", "src/sub/d.rs", "lib/e.rs", ".lib/e.rs"];
+// `lib/b\s.rs`: a backslash is an ordinary character of a Unix file name; its baseline key is `lib/b/s.rs`
+const FILES: &[&str] = &["src/a.rs", "src/b.rs", "src/c.rs", "src/sub/d.rs", "lib/e.rs", ".lib/e.rs", "lib/b\\s.rs"];
 
 impl Proj {
     fn write_file(&self, rel: &str, lines: usize) {
